@@ -1,4 +1,6 @@
 import PybtexModel.Drv.DbJson
+import PybtexModel.Model.CrossrefLoop
+import PybtexModel.Spec.CrossrefU
 open Lean
 namespace Pybtex.Drv.C14
 open Pybtex.Drv.DbJson
@@ -148,8 +150,96 @@ def pystyles (j : Json) : Except String Json := do
       arr (names.map fun n => optStr (Spec.lookup sdb e n))])
   pure (obj [("out", obj [("nodes", nodes)]), ("spec", obj [("lookup", spec)])])
 
+/-- `findvisited`: the three lookup methods AS THE CODE HAS THEM NOW, called with an explicit
+`visited` set, on a database built with `add_entry` from `Entry` objects: for every entry
+`_find_crossref_entry(·, bib_data, visited)` (key of the entry returned and the enlarged set, or
+null = `KeyError`; also with `bib_data=None`), and for every (entry, name)
+`_find_field(name, bib_data, visited)`, `_find_field(name, None, visited)` and
+`_find_crossref_field(name, bib_data, visited)` — model: `findCrossrefEntry`, `findFieldLoop`,
+`findCrossrefField` (`Model/CrossrefLoop.lean`).  Spec: the reference lookup and own values. -/
+def findvisited (j : Json) : Except String Json := do
+  let raw ← parseFile j
+  let names ← getStrList j "names"
+  let visited ← getStrList j "visited"
+  let file := toModelFile raw
+  let sdb := Spec.readAll (toSpecFile raw)
+  let withDb (f : BibData → Entry → Json) : Json := match BibData.readFile none file with
+    | none => Json.str "KeyError"
+    | some (db, _) =>
+      match CIDict.items db.entries with
+      | none => Json.str "KeyError"
+      | some its => arr (its.map fun p => arr [strToJson p.2.key, f db p.2])
+  let stepJ : Option (Entry × List Str) → Json
+    | none => Json.null
+    | some (p, v) => arr [strToJson p.key, strs v]
+  let step := withDb fun db e => stepJ (findCrossrefEntry (some db) visited e)
+  let stepNoDb := withDb fun _ e => stepJ (findCrossrefEntry none visited e)
+  let field := withDb fun db e => arr (names.map fun n => optStr (findFieldLoop (some db) visited e n))
+  let fieldNoDb := withDb fun _ e => arr (names.map fun n => optStr (findFieldLoop none visited e n))
+  let xfield := withDb fun db e => arr (names.map fun n => optStr (findCrossrefField (some db) visited e n))
+  let person := withDb fun _ e => arr (names.map fun n => optStr (findPersonField e n))
+  let spec : Json := arr (sdb.map fun e => rowJ e.key (names.map fun n => optStr (Spec.lookup sdb e n)))
+  let specOwn : Json := arr (sdb.map fun e => rowJ e.key (names.map fun n => optStr (e.own n)))
+  pure (obj [("out", obj [("step", step), ("step_nodb", stepNoDb), ("field", field), ("field_nodb", fieldNoDb),
+                          ("xfield", xfield), ("person", person)]),
+             ("spec", obj [("lookup", spec), ("own", specOwn)])])
+
+def exMsgJ : Except Str Str → Json
+  | .ok v => strToJson v
+  | .error m => obj [("missing", strToJson m)]
+
+/-- `fieldnode`: the template node `field` evaluated directly (no style, no engine) for every
+(entry, name) of a database read from `.bib` text: in a context that carries the database and in a
+context without one; a `FieldIsMissing` is shown with its message.  Spec: reference lookup. -/
+def fieldnode (j : Json) : Except String Json := do
+  let raw ← parseFile j
+  let names ← getStrList j "names"
+  let file := toModelFile raw
+  let sdb := Spec.readAll (toSpecFile raw)
+  let rows (ctx : Bool) : Json := match BibData.readFile none file with
+    | none => Json.str "KeyError"
+    | some (db, _) =>
+      match CIDict.items db.entries with
+      | none => Json.str "KeyError"
+      | some its => arr (its.map fun p => rowJ p.2.key (names.map fun n =>
+          exMsgJ (templateFieldMsg (if ctx then some db else none) p.2 n)))
+  let spec : Json := arr (sdb.map fun e => rowJ e.key (names.map fun n => optStr (Spec.lookup sdb e n)))
+  let specOwn : Json := arr (sdb.map fun e => rowJ e.key (names.map fun n => optStr (e.own n)))
+  pure (obj [("out", obj [("node_db", rows true), ("node_nodb", rows false)]),
+             ("spec", obj [("lookup", spec), ("own", specOwn)])])
+
+/-- `findvisited_u`: as `findvisited`, on the Unicode containers with `norm := lowerPy`
+(`Model/CrossrefU.lean`): keys, field names, role names, cross-reference targets and the members of
+`visited` may be any text.  Also the keys `add_entry` reported as repeated.  Spec: `lookupU`. -/
+def findvisitedU (j : Json) : Except String Json := do
+  let raw ← parseFile j
+  let names ← getStrList j "names"
+  let visited ← getStrList j "visited"
+  let built := Uni.addEntries lowerPy Uni.CIDict.empty
+    (raw.map fun r => (r.key, Uni.UEntry.ofPairs lowerPy r.fields r.persons))
+  let db := built.1
+  let withDb (f : Uni.UEntry → Json) : Json :=
+    match Uni.CIDict.items lowerPy db with
+    | none => Json.str "KeyError"
+    | some its => arr (its.map fun p => arr [strToJson p.2.key, f p.2])
+  let stepJ : Option (Uni.UEntry × List Str) → Json
+    | none => Json.null
+    | some (p, v) => arr [strToJson p.key, strs v]
+  let rows (f : Uni.UEntry → Str → Option Str) : Json := withDb fun e => arr (names.map fun n => optStr (f e n))
+  pure (obj [("out", obj [("step", withDb fun e => stepJ (Uni.findCrossrefEntry lowerPy (some db) visited e)),
+                          ("step_nodb", withDb fun e => stepJ (Uni.findCrossrefEntry lowerPy none visited e)),
+                          ("field", rows fun e n => Uni.findFieldLoop lowerPy (some db) visited e n),
+                          ("field_nodb", rows fun e n => Uni.findFieldLoop lowerPy none visited e n),
+                          ("xfield", rows fun e n => Uni.findCrossrefField lowerPy (some db) visited e n),
+                          ("person", rows fun e n => Uni.findPersonField lowerPy e n),
+                          ("repeated", strs built.2)]),
+             ("spec", obj [("lookup", rows fun e n => Uni.lookupU lowerPy db e n),
+                           ("own", rows fun e n => e.own lowerPy n)])])
+
 /-- driver ops of this property: (op name, handler) -/
 def handlers : List (String × (Json → Except String Json)) :=
-  [("findfield", findfield), ("findfield_api", findfieldApi), ("findchain", findchain), ("pystyles", pystyles)]
+  [("findfield", findfield), ("findfield_api", findfieldApi), ("findchain", findchain), ("pystyles", pystyles),
+   ("findvisited", findvisited), ("fieldnode", fieldnode),
+   ("findvisited_u", findvisitedU)]
 
 end Pybtex.Drv.C14
